@@ -25,6 +25,8 @@ OpOk(o) ==
     /\ ChkP(o.out \in {"ok", "err", "panic", "overrun"}, {"C08"}, "unexpected-outcome:" \o o.op)
     /\ ChkP(o.devread <= 2 * E.size + 2048, {"C09"}, "device-bytes-read-in-one-call-exceed-the-bound:" \o o.op)
     /\ ChkP(KiB(o.alloc) <= AllocBoundKiB(E.nproto, E.size), {"C09"}, "peak-allocation-in-one-call-exceeds-the-bound:" \o o.op)
+    \* C06 on untrusted input: a blob extraction that reports success delivered exactly the descriptor's length
+    /\ ("got" \in DOMAIN o /\ "some" \in DOMAIN o.got) => ChkP(o.got.some = o.len, {"C06"}, "blob-extraction-ok-with-another-length-than-the-descriptor:" \o o.op)
     /\ ("yielded" \in DOMAIN o) => ChkP(LeU(o.yielded, o.records), {"C09"}, "iterator-yields-more-points-than-the-record-count:" \o o.op)
 T_Case == /\ IsEv("untrusted")
           /\ \A i \in 1..Len(E.ops) : OpOk(E.ops[i])
